@@ -2,6 +2,7 @@ package main
 
 import (
 	"fmt"
+	"go/token"
 	"go/types"
 	"sort"
 	"strings"
@@ -236,4 +237,51 @@ func pureFuncs(ic *IC, r *Report, rule string, names []string, floor int, keySuf
 	}
 	r.Check(len(memo) == 0, rule, "package/no-interpreter-wide-memo-table", "", "no sync.Map is filled anywhere in package interp",
 		"a sync.Map is filled in "+strings.Join(dedupStr(memo), ", ")+": an interpreter-wide memo table (wrapper choice, method lookup) is keyed by less than what the answer depends on and is never invalidated, so the first use fixes the answer for every later one")
+}
+
+// noProcessWideMemo: nothing in package interp fills, after package initialisation, a table that
+// outlives an interpreter: a sync.Map, or a map held in a package-level variable. Such a memo is
+// keyed by less than what the cached answer depends on (a printed constant, a reflect type, a
+// name) and shared by every interpreter of the process (round-6 seed: converted constants cached
+// under their 6-digit printed form; round-4: a per-type method cache).
+func noProcessWideMemo(ic *IC, r *Report, rule string) {
+	var memo []string
+	n := 0
+	for _, f := range allSSAFuncs(ic.SP) {
+		root := f
+		for root.Parent() != nil {
+			root = root.Parent()
+		}
+		if root.Name() == "init" || strings.HasPrefix(root.Name(), "init#") {
+			continue
+		}
+		for _, b := range f.Blocks {
+			for _, ins := range b.Instrs {
+				switch x := ins.(type) {
+				case *ssa.Call:
+					n++
+					if callee := x.Call.StaticCallee(); callee != nil && callee.Pkg != nil && callee.Pkg.Pkg.Path() == "sync" && callee.Signature.Recv() != nil &&
+						strings.Contains(callee.Signature.Recv().Type().String(), "sync.Map") {
+						switch callee.Name() {
+						case "Store", "LoadOrStore", "Swap", "CompareAndSwap":
+							memo = append(memo, "sync.Map."+callee.Name()+" in "+ssaFuncName(root)+" at "+ic.pos(x.Pos()))
+						}
+					}
+				case *ssa.MapUpdate:
+					if ld, ok := x.Map.(*ssa.UnOp); ok && ld.Op == token.MUL {
+						if g, ok := ld.X.(*ssa.Global); ok && g.Pkg == ic.SP {
+							memo = append(memo, "package-level map "+g.Name()+" updated in "+ssaFuncName(root)+" at "+ic.pos(x.Pos()))
+						}
+					}
+				}
+			}
+		}
+	}
+	sort.Strings(memo)
+	if n == 0 {
+		r.Errorf("%s: no call instruction found (SSA not built)", rule)
+		return
+	}
+	r.Check(len(memo) == 0, rule, "package/no-process-wide-memo-table", "", "no sync.Map or package-level map is filled after package initialisation",
+		"a process-wide table is filled while programs are compiled or run ("+strings.Join(dedupStr(memo), "; ")+"): what is cached under the key does not depend on the key alone (two constants printed alike, a type that gains a method, a second interpreter), so a later use gets the answer computed for another value")
 }
